@@ -366,7 +366,10 @@ class FunctionVC(Executor):
         from .rewrite import HeapRewriter
         name = fobj.__name__
         ph, ph_vars, guards = [], [], []
+        rw0 = HeapRewriter([], getattr(self.model.decl, "REGION_ATTRS", []), s.fresh)
         for i, a in enumerate(args):
+            if isinstance(a, Val) and a.ty != STR and not rw0.entry(a.t):
+                raise Unsupported("spec argument is not an entry-state object: inline")
             if isinstance(a, Val):
                 c = z3.Const(f"p_{name}_{i}", V)
                 ph.append(Val(c, a.ty))
